@@ -411,12 +411,20 @@ func upstreamProcsForProc(proc WorkflowProcess) map[string]WorkflowProcess {
 	procs := map[string]WorkflowProcess{}
 	for _, inp := range proc.InPorts() {
 		for _, rpt := range inp.RemotePorts {
+			if rpt.Process() == proc {
+				continue // A process is not its own upstream
+			}
 			procs[rpt.Process().Name()] = rpt.Process()
 			mergeWFMaps(procs, upstreamProcsForProc(rpt.Process()))
 		}
 	}
 	for _, pip := range proc.InParamPorts() {
 		for _, rpp := range pip.RemotePorts {
+			if rpp.Process() == proc {
+				// Feeder ports created by FromStr(), FromInt() etc. belong to the
+				// process itself, which is not its own upstream
+				continue
+			}
 			procs[rpp.Process().Name()] = rpp.Process()
 			mergeWFMaps(procs, upstreamProcsForProc(rpp.Process()))
 		}
